@@ -71,6 +71,10 @@ type handlerSpec struct {
 	// the handler reads the body on one goroutine and closes it from another while a Read is
 	// blocked in the middle of a message (the client pauses there until the Close has been issued)
 	CloseRace bool `json:"closerace"`
+	// full-duplex handler (what grpc-go's ServeHTTP does): a writer goroutine is inside a Write of a response
+	// message (its envelope is out, its payload is not) while the reader goroutine hits a malformed request
+	// envelope; only then is the writer allowed to go on
+	Duplex bool `json:"duplex"`
 	Ignore  bool        `json:"ignore"`  // ignore request-side failures (hostile handler)
 }
 
